@@ -1,6 +1,7 @@
 package props
 
 import (
+	"strings"
 	"context"
 	"fmt"
 	"sync"
@@ -22,6 +23,8 @@ type c07Params struct {
 	// SetupHandle: passing iterations with id%3==0 mark failure on the handle captured in setup, which is not
 	// their own; they and every other iteration still pass or fail by their own plan
 	SetupHandle bool   `json:"setup_handle,omitempty"`
+	// SlowSink: every "recovered panic" record takes 15 ms to write (a slow terminal or log pipe)
+	SlowSink bool `json:"slow_sink,omitempty"`
 	// Timed: every second iteration performs its behaviour inside a t.Time(...) stage
 	Timed bool `json:"timed,omitempty"`
 	Desc        string `json:"desc"`
@@ -138,6 +141,20 @@ func init() {
 				qp.Desc += " quiet-logger+verbose"
 				last.P = core.MustJSON(qp)
 			}
+			// panics whose report takes long to write: the mark must be in place when the function is over
+			for k, kd := range []int{engine.BHelperPanic, engine.BPanicString, engine.BNilDeref, engine.BPanicError} {
+				if tier == "quick" && k >= 2 {
+					continue
+				}
+				add(modes[kd%len(modes)], []int{kd}, false, engine.BehaviourNames[kd])
+				last := &cs[len(cs)-1]
+				var sp c07Params
+				last.Params(&sp)
+				sp.SlowSink = true
+				sp.Spec.Verbose = true
+				sp.Desc += " slow-sink"
+				last.P = core.MustJSON(sp)
+			}
 			// behaviours performed inside a t.Time(...) stage
 			nt := 6
 			if tier == "thorough" {
@@ -244,6 +261,13 @@ func c07Run(c *core.Case, o *core.Outcome) {
 func c07Once(c *core.Case, o *core.Outcome, p c07Params, reg *scenarios.Scenarios, inst *metrics.Metrics) (ret *metrics.Metrics) {
 	k := engine.NewTracker()
 	l := engine.NewLog()
+	if p.SlowSink {
+		l.OutDelay = func(text string) {
+			if strings.Contains(text, "recovered panic") {
+				time.Sleep(15 * time.Millisecond)
+			}
+		}
+	}
 	ctx, cancel := context.WithCancel(context.Background())
 	defer cancel()
 	seed := c.Rng("plan").Uint64()
